@@ -123,6 +123,8 @@ class StepOps:
     def resolve(self, v, env):
         """a value with list objects replaced by their contents and ``*x`` entries of tuple
         displays spliced in (for yields and return values)"""
+        if self._is_list(v) and v[1] in env.get("@setrefs", ()):
+            return ("SET", frozenset(self.resolve(x, env) for x in self._get(env, v)))
         if self._is_list(v):
             return ("LIST",) + tuple(self.resolve(x, env) for x in self._get(env, v))
         if isinstance(v, tuple) and v[:1] == ("SEQ",) and len(v) == 2 and isinstance(v[1], tuple):
@@ -182,6 +184,44 @@ class StepOps:
             and len(loops) == 1 and isinstance(loops[0].test, ast.Constant) and loops[0].test.value is True \
             and not any(isinstance(n, (ast.Return, ast.Break)) for n in own_nodes(t.node))
 
+    def _is_repeat_class(self, func_node) -> bool:
+        """a private library class that is the endless iterator over its one constructor argument: ``__init__`` only
+        stores the argument, ``__anext__`` only returns that field, ``__aiter__`` returns self, and whatever else it
+        defines (``aclose``) has an empty body"""
+        try:
+            r = self.ctx.pkg.resolve_expr_global(self.module, func_node)
+        except Exception:  # noqa: BLE001
+            return False
+        info = self.ctx.pkg.lib_class(r.qual) if r is not None and r.kind == "lib" else None
+        return info is not None and self._repeat_class(info)
+
+    @staticmethod
+    def _repeat_class(info) -> bool:
+        def body(m):
+            return [b for b in m.node.body if not (isinstance(b, ast.Expr) and isinstance(b.value, ast.Constant)) and not isinstance(b, ast.Pass)]
+        init, nxt, it = info.methods.get("__init__"), info.methods.get("__anext__"), info.methods.get("__aiter__")
+        if init is None or nxt is None or it is None or not info.name.startswith("_") or nxt.kind != "coroutine":
+            return False
+        if len(init.param_names()) != 2:
+            return False
+        me, p = init.param_names()
+        b = body(init)
+        if not (len(b) == 1 and isinstance(b[0], (ast.Assign, ast.AnnAssign)) and isinstance(b[0].value, ast.Name) and b[0].value.id == p):
+            return False
+        tgt = b[0].targets[0] if isinstance(b[0], ast.Assign) else b[0].target
+        if not (isinstance(tgt, ast.Attribute) and isinstance(tgt.value, ast.Name) and tgt.value.id == me):
+            return False
+        fld = tgt.attr
+        nb = body(nxt)
+        if not (len(nb) == 1 and isinstance(nb[0], ast.Return) and isinstance(nb[0].value, ast.Attribute) and nb[0].value.attr == fld
+                and isinstance(nb[0].value.value, ast.Name) and nb[0].value.value.id == nxt.param_names()[0]):
+            return False
+        ib = body(it)
+        if not (len(ib) == 1 and isinstance(ib[0], ast.Return) and isinstance(ib[0].value, ast.Name) and ib[0].value.id == it.param_names()[0]):
+            return False
+        return all(not body(m) or (len(body(m)) == 1 and isinstance(body(m)[0], ast.Return) and body(m)[0].value is None)
+                   for name, m in info.methods.items() if name not in ("__init__", "__anext__", "__aiter__"))
+
     # ------------------------------------------------------------------ evaluation hooks
     def call(self, func, args, kwargs, node, env):
         last = self._resolved(node.func)
@@ -214,6 +254,18 @@ class StepOps:
                 if el is not None and all(self._is_iter(x) for x in el):
                     return ("SEQ", tuple(el))
             return UNKNOWN
+        if last == "set" and self._resolved_kind(node.func) in ("builtin", "stdlib") and not node.keywords and len(node.args) <= 1:
+            # a mutable set object of the model: a heap cell that keeps one of every element (``.add`` below)
+            el = self._elements(args[0], env) if node.args else []
+            if el is None:
+                return UNKNOWN
+            uniq: List[Any] = []
+            for x in el:
+                if x not in uniq:
+                    uniq.append(x)
+            ref = self._new(env, uniq)
+            env["@setrefs"] = tuple(env.get("@setrefs", ())) + (ref[1],)
+            return ref
         if last in ("list", "tuple"):
             if not node.args:
                 return self._new(env, ()) if last == "list" else ("SEQ", ())
@@ -243,6 +295,8 @@ class StepOps:
             return True
         t = self._lib_unit(node.func)
         if self._is_repeat_unit(t) and len(args) == 1:
+            return ("REPEAT", args[0])
+        if len(args) == 1 and not node.keywords and self._is_repeat_class(node.func):
             return ("REPEAT", args[0])
         return UNKNOWN
 
@@ -523,8 +577,16 @@ class StepOps:
                 result = None
         elif isinstance(f, ast.Attribute) and f.attr == "append" and len(call.args) == 1:
             base = ev.eval(f.value, env)
-            if self._is_list(base):
+            if self._is_list(base) and base[1] not in env.get("@setrefs", ()):
                 self._set(env, base, list(self._get(env, base)) + [ev.eval(call.args[0], env)])
+                result = None
+        elif isinstance(f, ast.Attribute) and f.attr == "add" and len(call.args) == 1:
+            base = ev.eval(f.value, env)
+            if self._is_list(base) and base[1] in env.get("@setrefs", ()):
+                new_el = ev.eval(call.args[0], env)
+                have = list(self._get(env, base))
+                if new_el not in have:
+                    self._set(env, base, have + [new_el])
                 result = None
         if result != "@none":
             vals[id(call)] = result
